@@ -33,6 +33,7 @@ func freshFollower(r *simrt.Run, w *nomsim.World, name string, src *simnode.Node
 }
 
 func runC06(r *simrt.Run) {
+	r.WatchLocks() // a lock of the node that is never released is a violation, not a hang
 	t := r.T
 	mode := nomsim.SporkMode(t.Choose(3))
 	w := nomsim.NewWorld(r, nomsim.MockGenesis(mode))
